@@ -474,6 +474,13 @@ clientOutput(void *data)
 
 		LOCK(cl->updateMutex);
 
+		/* rfbCloseClient() sets the state and signals while holding this mutex:
+		   test again now that we hold it, or the wake-up could be missed. */
+		if (cl->sock == RFB_INVALID_SOCKET || cl->state == RFB_SHUTDOWN) {
+			UNLOCK(cl->updateMutex);
+			return THREAD_ROUTINE_RETURN_VALUE;
+		}
+
 		if (sraRgnEmpty(cl->requestedRegion)) {
 			; /* always require a FB Update Request (otherwise can crash.) */
 		} else {
